@@ -30,6 +30,26 @@ try:
             shutil.copy(src, wt + '/tests/' + f)
         elif os.path.isdir(src):
             shutil.copytree(src, wt + '/tests/' + f, dirs_exist_ok=True)
+    # demos that `include_str!` their inputs under the names they had in the author's worktree
+    for inc in re.findall(r'include_str!\("([^"]+)"\)', open(os.path.join(seed, 'demo.rs')).read()):
+        rest = re.sub(r'^seed_demo_[AB]_?', '', inc)
+        cands = [rest, 'input_' + rest, re.sub(r'^input_', '', rest), rest.replace('_', '/'), 'input.pyxis']
+        if rest in ('', '.pyxis'):
+            cands = ['input.pyxis']
+        for cnd in cands:
+            src = os.path.join(seed, cnd)
+            if cnd and os.path.isfile(src):
+                os.makedirs(os.path.dirname(os.path.join(wt, 'tests', inc)) or '.', exist_ok=True)
+                shutil.copy(src, os.path.join(wt, 'tests', inc))
+                break
+        else:
+            # e.g. seed_demo_B_input_gfx_device.pyxis -> gfx/device.pyxis or input/gfx_device.pyxis
+            base = re.sub(r'^input_', '', rest)
+            for root, _, files in os.walk(seed):
+                for f in files:
+                    rel = os.path.relpath(os.path.join(root, f), seed)
+                    if rel.replace('/', '_') in (base, rest) or f == base:
+                        shutil.copy(os.path.join(root, f), os.path.join(wt, 'tests', inc))
     rc0, out0 = sh('%s cargo test --offline --test seed_demo 2>&1 | tail -15' % env, cwd=wt)
     demo_clean_ok = 'test result: ok' in out0
     rc, out = sh('git apply %s' % patch, cwd=wt)
@@ -56,7 +76,7 @@ if confirmed and props:
     try:
         for p in props:
             t0 = time.time()
-            rc, out = sh('bin/check %s 2>&1 | grep -v "^   Finding" | tail -6' % p, cwd='/verif', timeout=3600)
+            rc, out = sh('bin/check %s 2>/dev/null | tail -8' % p, cwd='/verif', timeout=3600)
             viol = [l for l in out.split('\n') if l.startswith('VIOLATION')]
             results[p] = {'violation_lines': viol, 'tail': out[-600:], 's': round(time.time() - t0, 1)}
             print(p, 'DETECTED' if viol else 'missed', viol[:2])
